@@ -176,7 +176,80 @@ var c17Shared = reflect.TypeOf(struct {
 	T1 Marked    `plenc:"7,m1"`
 }{})
 
+// c17FirstUse runs in a process that has not touched plenc yet: a package-level registration for a
+// key the defaults also fill (time.Time, uint32, int64 with "flat") comes first; the package-level
+// functions must then behave like an instance that was given the same registration after
+// RegisterDefaultCodecs.
+func c17FirstUse(c *core.Ctx, idx int) {
+	rec := c.Rec
+	type reg struct {
+		name string
+		pkg  func()
+		inst func(p *plenc.Plenc)
+		typ  reflect.Type
+	}
+	T := reflect.TypeOf
+	regs := []reg{
+		{"RegisterCodec(time.Time, TimeCompatCodec)", func() { plenc.RegisterCodec(model.TimeT, plenccodec.TimeCompatCodec{}) }, func(p *plenc.Plenc) { p.RegisterCodec(model.TimeT, plenccodec.TimeCompatCodec{}) },
+			T(struct {
+				A time.Time `plenc:"1"`
+				B int       `plenc:"2"`
+			}{})},
+		{"RegisterCodec(uint32, FlatIntCodec)", func() { plenc.RegisterCodec(T(uint32(0)), plenccodec.FlatIntCodec[uint32]{}) }, func(p *plenc.Plenc) { p.RegisterCodec(T(uint32(0)), plenccodec.FlatIntCodec[uint32]{}) },
+			T(struct {
+				A uint32   `plenc:"1"`
+				B []uint32 `plenc:"2"`
+			}{})},
+		{`RegisterCodecWithTag(int64, "flat", IntCodec)`, func() { plenc.RegisterCodecWithTag(T(int64(0)), "flat", plenccodec.IntCodec[int64]{}) }, func(p *plenc.Plenc) { p.RegisterCodecWithTag(T(int64(0)), "flat", plenccodec.IntCodec[int64]{}) },
+			T(struct {
+				A int64 `plenc:"1,flat"`
+				B int64 `plenc:"2"`
+			}{})},
+		{"RegisterCodec(time.Time, BQTimestampCodec)", func() { plenc.RegisterCodec(model.TimeT, plenccodec.BQTimestampCodec{}) }, func(p *plenc.Plenc) { p.RegisterCodec(model.TimeT, plenccodec.BQTimestampCodec{}) },
+			T(struct {
+				A time.Time  `plenc:"1"`
+				P *time.Time `plenc:"2"`
+			}{})},
+	}
+	rg := regs[idx%len(regs)]
+	rg.pkg() // nothing of plenc's package-level API has been called in this process before
+	ref := &plenc.Plenc{}
+	ref.RegisterDefaultCodecs()
+	rg.inst(ref)
+	r := c.Rand(idx)
+	for i := 0; i < 20; i++ {
+		v := (&gen.VG{R: r, C: model.Cfg{}, Budget: 20, Finite: true}).Value(rg.typ, "")
+		want, err1 := ref.Marshal(nil, ptrTo(v))
+		var got []byte
+		var err2 error
+		pn := core.Guard(func() { got, err2 = plenc.Marshal(nil, ptrTo(v)) })
+		rec.Eval(1)
+		if pn != "" || (err1 != nil) != (err2 != nil) || !bytes.Equal(got, want) {
+			rec.Violation("scoping-default", fmt.Sprintf("%s as the first package-level call of the process: the package-level Marshal writes %s (%v %s), an instance with the default codecs and the same registration writes %s (%v)\n  value %s", rg.name, hexHead(got), err2, trunc1(pn), hexHead(want), err1, model.Show(v)), map[string]any{"registration": rg.name})
+			return
+		}
+		a, b := reflect.New(rg.typ), reflect.New(rg.typ)
+		e1 := ref.Unmarshal(want, a.Interface())
+		var e2 error
+		pn = core.Guard(func() { e2 = plenc.Unmarshal(want, b.Interface()) })
+		if pn != "" || (e1 != nil) != (e2 != nil) || model.Diff(a.Elem(), b.Elem(), "$") != "" {
+			rec.Violation("scoping-default", fmt.Sprintf("%s as the first package-level call of the process: the package-level Unmarshal reads %s (%v %s), the equally configured instance reads %s (%v)", rg.name, model.Show(b.Elem()), e2, trunc1(pn), model.Show(a.Elem()), e1), map[string]any{"registration": rg.name})
+			return
+		}
+	}
+	rec.Count("first_use_registrations", 1)
+	rec.NonTrivial(core.Hash64("firstuse", rg.name))
+	rec.NonTrivial(core.Hash64("firstuse-b", rg.name, fmt.Sprint(idx)))
+	if rec.WantSample() {
+		rec.Sample(map[string]any{"lane": "firstuse", "registration": rg.name})
+	}
+}
+
 func c17Case(c *core.Ctx, idx int) {
+	if c.Lane == "firstuse" {
+		c17FirstUse(c, idx)
+		return
+	}
 	rec := c.Rec
 	r := c.Rand(idx)
 	n := 2 + r.IntN(5)
@@ -386,6 +459,9 @@ func c17Case(c *core.Ctx, idx int) {
 // very end of the shard): the package-level functions must use it, fresh and
 // existing instances must not.
 func c17Finish(c *core.Ctx) {
+	if c.Lane == "firstuse" {
+		return
+	}
 	rec := c.Rec
 	r := c.Rand(1 << 30)
 	var nextID byte = 200
@@ -429,13 +505,13 @@ func init() {
 		ID:        "C17",
 		Technique: "marker-codec monitor: several Plenc instances with random options and random (type, tag) registrations of harness marker codecs used in interleaved order (race lane: concurrently); every output compared byte for byte with the model parameterised by that instance only; package-level functions compared with a default configuration",
 		Rule: "one trial = 2-6 instances, each with random ProtoCompatibleArrays/Time and a random subset of registrations {(Marked,\"\"),(Marked,m1),(Marked,m2),(MarkStr,\"\"),(MarkStr,m1)} of marker codecs that write a constant identifying the registration; the marked struct type and the named string type are placed as value, tagged value, pointer target, slice element, map key, map value, interned field, and the same slice/map/int types again under the built-in proto/flat options, in shuffled declaration order; failing builds interleaved on random instances; 6 x instances marshal/unmarshal jobs in random instance order; " +
-			"then the package-level Marshal/Unmarshal are compared with a default configuration. At the end of each shard a package-level registration is made and must be visible to the package-level functions only. distinct = distinct trials (sets of instance configurations)",
+			"then the package-level Marshal/Unmarshal are compared with a default configuration. Lane firstuse: 16 fresh processes whose first package-level call is a registration for a key the defaults also fill. At the end of each shard a package-level registration is made and must be visible to the package-level functions only. distinct = distinct trials (sets of instance configurations)",
 		Assume: []string{"model.Encode parameterised by one instance's options and registrations"},
 		Plan: func(tier string) []core.Lane {
 			if tier == "thorough" {
-				return []core.Lane{{Lane: "plain", Cases: 900000, Shards: 16, TimeoutS: 7200}, {Lane: "race", Cases: 60000, Shards: 16, TimeoutS: 3600}}
+				return []core.Lane{{Lane: "plain", Cases: 900000, Shards: 16, TimeoutS: 7200}, {Lane: "race", Cases: 60000, Shards: 16, TimeoutS: 3600}, {Lane: "firstuse", Cases: 16, Shards: 16, TimeoutS: 600}}
 			}
-			return []core.Lane{{Lane: "plain", Cases: 8000, Shards: 16, TimeoutS: 1200}, {Lane: "race", Cases: 640, Shards: 16, TimeoutS: 1200}}
+			return []core.Lane{{Lane: "plain", Cases: 8000, Shards: 16, TimeoutS: 1200}, {Lane: "race", Cases: 640, Shards: 16, TimeoutS: 1200}, {Lane: "firstuse", Cases: 16, Shards: 16, TimeoutS: 600}}
 		},
 		Case:   c17Case,
 		Finish: c17Finish,
